@@ -83,7 +83,8 @@ func (iter *LexicographicPermutationIterator) Value() []int {
 //Next moves the iterator to the next permutation, returning true if there is one and false if the previous permutation is the last one.
 func (iter *LexicographicPermutationIterator) Next() bool {
 	n := iter.n
-	if n > 0 && iter.first {
+	if iter.first {
+		//The first permutation is the identity (the empty permutation if n is 0).
 		iter.first = false
 		return true
 	}
